@@ -19,8 +19,9 @@
      the content itself (oid_of), i.e. collision freeness is built in.
    * classification of one key = the GENERATED [IDiff.diff_entry] (translator unit idiff, from
      index/diff.py) with compare()'s default meta_cmp_key = (isdir, isexec);
-     [compare_change] = hand translation of the per-change branch of _compare (validated
-     exhaustively against the real _compare by harness/props/c09.py, stream "branch");
+     the per-change branch of _compare is the GENERATED [IdxCompare.compare_branch] (translator unit
+     idxcompare), additionally validated exhaustively against the real _compare by
+     harness/props/c09.py, stream "branch";
    * the traversal of index/diff.py:_diff is replaced by its flat specification: every key of
      either index once (C08's statement; exercised by the correspondence on every run);
    * lazy loading (index.py:_load_from_object_storage) = [expand], eager: every lazy directory
@@ -31,7 +32,7 @@
    version-aware file systems, storages other than one ObjectStorage "cache", relink's
    prompt-free UNCHANGED branch is modelled in [compare_change] only. *)
 From Coq Require Import NArith List Bool.
-From DvcData Require Import Base.Val Base.PyBase Gen.PyTypes Gen.IDiff.
+From DvcData Require Import Base.Val Base.PyBase Gen.PyTypes Gen.IDiff Gen.IdxCompare.
 Import ListNotations.
 Open Scope N_scope.
 
@@ -133,49 +134,15 @@ Definition cmpk (m : option meta) : N :=
   end.
 
 (* ---- the per-change branch of _compare ------------------------------------------------------ *)
-Inductive action :=
-| AFilesDelete (e : ientry) | ADirsDelete (e : ientry) | AFilesCreate (e : ientry)
-| ADirsCreate (e : ientry) | AFilesChmod (e : ientry).
-
-Definition e_isdir (e : ientry) : bool := match e_meta e with Some m => m_isdir m | None => false end.
-Definition e_isexec (e : ientry) : bool := match e_meta e with Some m => m_isexec m | None => false end.
-
-Definition add_file_create (e : ientry) : list action :=
-  (if e_isexec e then [AFilesChmod e] else []) ++ [AFilesCreate e].
-Definition add_create (e : ientry) : list action :=
-  if e_isdir e then [ADirsCreate e] else add_file_create e.
-Definition add_delete (e : ientry) : list action :=
-  if e_isdir e then [ADirsDelete e] else [AFilesDelete e].
-
-(* the body of `for change in idiff(...)`; the AssertionError cases yield [] (not reachable from
-   diff without with_renames/with_unknown) *)
+(* GENERATED: Gen/IdxCompare.v (translator unit idxcompare) holds [action], the helper closures and
+   [compare_branch typ old new delete relink new_has_node : option (list action)] - the actions one change
+   appends, in source order; None = the iteration raises (AssertionError, attribute of a missing side).
+   Those inputs are not produced by diff without with_renames/with_unknown; they yield no action here. *)
 Definition compare_change (relink delete : bool) (typ : ichange) (old new : option ientry) (new_has_node : bool)
   : list action :=
-  match typ with
-  | ichange_ADD => match new with Some e => add_create e | None => [] end
-  | ichange_DELETE =>
-      if delete then
-        match old with
-        | Some e => if e_isdir e && new_has_node then []   (* still an implicit directory of new (ed61977) *)
-                    else add_delete e
-        | None => []
-        end
-      else []
-  | ichange_UNCHANGED =>
-      if relink then
-        (match old with Some e => if e_isdir e then [] else [AFilesDelete e] | None => [] end)
-        ++ (match new with Some e => if e_isdir e then [] else add_file_create e | None => [] end)
-      else []
-  | ichange_MODIFY =>
-      match old, new with
-      | Some o, Some n =>
-          if negb (opt_eqb hashinfo_eqb (e_hash_info o) (e_hash_info n)) || negb (Bool.eqb (e_isdir o) (e_isdir n))
-          then if e_isdir o && e_isdir n then [] else add_delete o ++ add_create n
-          else if negb (Bool.eqb (e_isexec o) (e_isexec n)) && negb (e_isdir n) then [AFilesChmod n]
-          else []
-      | _, _ => []
-      end
-  | _ => []
+  match compare_branch typ old new delete relink new_has_node with
+  | Some l => l
+  | None => []
   end.
 
 Definition is_none {A} (o : option A) : bool := match o with None => true | Some _ => false end.
